@@ -20,7 +20,7 @@ func with(base propFn, extra ...propFn) propFn {
 // Registry maps a property id to the function that adds its obligations to the report.
 var Registry = map[string]func(*core.Prog, *core.Report){
 	"C01": with(C01, frameGroup, batchGroup, vf0RecordCarriesArgs, nil1LookupTested, err1WrapPolarity, fid1IdsFromActive),
-	"C02": with(C02, frameGroup, batchGroup, mergeGroup, cf2RecoveryIgnoresLimit, cl1CloseAll, cl1bCloseLoopComplete, fn1NamesSortLikeIds, fid1IdsFromActive),
+	"C02": with(C02, frameGroup, batchGroup, mergeGroup, cf2RecoveryIgnoresLimit, cl1CloseAll, cl1bCloseLoopComplete, fn1NamesSortLikeIds, fid1IdsFromActive, fn2DecimalIds),
 	"C03": with(C03, frameGroup, batchGroup, mergeGroup, fid1IdsFromActive),
 	"C04": with(C04, batchGroup, frameGroup, ps3Rotate),
 	"C05": with(C05, batchGroup, vf0RecordCarriesArgs, nil1LookupTested, err1WrapPolarity),
@@ -30,13 +30,13 @@ var Registry = map[string]func(*core.Prog, *core.Report){
 		newVF(p, rep).vf2(nil)
 	}, pool2SingleRelease, pool4NoUseAfterRelease, cd7LogicalSize),
 	"C09": with(C09, pool2SingleRelease, pool3BufferSingleRelease, pool4NoUseAfterRelease, bt1PutType, lk13BackendState, nil1LookupTested),
-	"C10": with(C10, it1FilterAfterMove, it1bDelegation, it2FilterPolarity),
+	"C10": with(C10, it1FilterAfterMove, it1bDelegation, it2FilterPolarity, it3OnlyCloseCloses),
 	"C11": with(C11, frameGroup),
 	"C12": with(C12, frameGroup),
 	"C13": with(C13, cfg1OptionsImmutable),
-	"C14": with(C14, cfg1OptionsImmutable, mg3Only, cf2RecoveryIgnoresLimit, batchGroup, cl1CloseAll, fn1NamesSortLikeIds),
+	"C14": with(C14, cfg1OptionsImmutable, mg3Only, cf2RecoveryIgnoresLimit, batchGroup, cl1CloseAll, fn1NamesSortLikeIds, fn2DecimalIds),
 	"C15": with(C15, pool2SingleRelease, pool3BufferSingleRelease, pool4NoUseAfterRelease, rt2Decoded),
-	"C16": with(C16, rm1RemovalTargets),
+	"C16": with(C16, rm1RemovalTargets, cl2RefusalKeepsLock),
 	"C17": with(C17, bt3FlushLoopComplete, cd11Only, tb3bIndexImplParity, bt5SizeBookkeeping),
 	"C18": with(C18, mergeGroup, cd11Only),
 	"C19": with(C19, batchGroup),
